@@ -31,6 +31,9 @@ pub fn checks(_tier: Tier) -> Vec<Check> {
             items.push(Req::new("k.field", vec![n.as_bytes().to_vec()]));
         }
         items.push(Req::new("k.scalar", vec![]));
+        for i in 0..10u8 {
+            items.push(Req::new("k.point_const", vec![vec![i]]));
+        }
         if cfg!(feature = "tables") {
             for i in 0..32u8 {
                 for j in 0..8u8 {
